@@ -11,6 +11,9 @@ from mc.lib import records
 ID = 'C04'
 LEVEL = 'model_checking'
 WANT = ('C04',)
+# fewer non-trivial cases than this share of all cases means that the
+# exploration has become vacuous (reported as INTERNAL-ERROR, never as a pass)
+MIN_NONTRIVIAL_FRACTION = 0.1
 RULE = (
     'Function level: every pair of boolean vectors (is_jump, is_raining) up '
     'to the stated length through get_mystery_jump_mask, every boolean '
